@@ -186,6 +186,14 @@ func (ex *Exec) simpKnown(t *Term) *Term {
 					return ex.simpKnown(r)
 				}
 			}
+		case "str.<":
+			// x ++ c < y ++ c for plain words x, y and a constant c whose first character sorts before every letter:
+			// the order is the order of x and y (a proper prefix sorts first either way)
+			aa, ba := catAtoms(t.Args[0]), catAtoms(t.Args[1])
+			if len(aa) == 2 && len(ba) == 2 && aa[1] == ba[1] && aa[1].Op == "cs" && aa[1].S != "" && aa[1].S[0] < 'a' &&
+				aa[0].Op == "var" && ba[0].Op == "var" && ex.plainVars[aa[0]] && ex.plainVars[ba[0]] {
+				return mkStrLt(aa[0], ba[0])
+			}
 		case "str.contains":
 			if t.Args[1].Op == "cs" && ex.cannotContain(t.Args[0], t.Args[1].S) {
 				return tFalse
